@@ -6,9 +6,9 @@
    inherited / no background, scenarios with <= MaxOwn own steps, selected or not, shown or hidden, normal and dry-run,
    undefined steps, converter errors, a second feature before / after), writes down the formatter stream the runner
    emits for it (after Run.tla), feeds the automata transcribed from JSONFormatter / PlainFormatter / the progress
-   formatters / JsonParser and checks every clause in every state -- except the named defect families
-   (KnownFamilies), each guarded by a narrow predicate (KFNarrow), and with the drafted repairs nothing fires
-   (RepairedHolds).  A deterministic part of the runs is emitted with the predicted stream and reports.
+   formatters / JsonParser and checks every clause in every state -- except the one named family of the code as it is
+   (KnownFamilies: a dry run gives its undefined steps no callbacks, DESIGN section 8 #4, a known finding), guarded by a
+   narrow predicate (KFNarrow); with the drafted repair nothing fires (RepairedHolds).  A deterministic part of the runs is emitted with the predicted stream and reports.
 2. "design" rows: every emitted run is rendered to real feature files and run on the real ModelRunner with the
    built-in report writers; the recorded stream and the reports are compared with the prediction (divergences,
    informational) and judged like every other row.
@@ -19,6 +19,9 @@
 4. "formats" rows: the same kind of cases with the set and order of built-in formatters varied (json json.pretty
    plain pretty progress progress2 progress3 rerun steps; quick: some subsets, thorough: every subset of size <= 3)
    and --no-timings / --no-multiline / colour switches.
+5. "hookskip" rows: emitted runs with unselected elements once more, the exclusion now done at run time by a
+   before_feature / before_rule / before_scenario hook calling skip() on its element (no tags, no tag expression):
+   the stream and the reports must be those of the tag-excluded run.
 TLC (Consumers_Trace) judges all rows: grammar of the recorded stream, json_valid, json_mirror, json_readback,
 plain_once, progress_once, agree, no_crash.  Python renders, runs, reads files and maps locations to ids."""
 import bisect
@@ -84,7 +87,9 @@ def features_of(job):
             if it["kind"] != "rule":
                 seen = True
     ex = G.EXPRS[c["expr"]]
-    return {"dry": bool(c["dry"]), "rule_after_scenario": rule_after_scen,
+    # continue_after_failed_step with a failing step that is not the last one: results follow a failed result
+    cont_mid = bool(c.get("cont")) and any(s["o"] == "fail" for e in flat["elems"] for s in e["steps"][:-1])
+    return {"dry": bool(c["dry"]), "cont_fail_not_last": cont_mid, "rule_after_scenario": rule_after_scen,
             "feature_bg": any(f.get("bg") is not None for f in job["prog"]["features"]),
             "rule_bg": any(it["kind"] == "rule" and it.get("bg") is not None for f in job["prog"]["features"] for it in f["items"]),
             "outline": any(e["kind"] == "outline" for e in flat["elems"]),
@@ -96,7 +101,7 @@ def features_of(job):
 def job_class(job):
     f = features_of(job)
     return (job["prog"].get("family", ""), f["dry"], f["rule_after_scenario"], f["feature_bg"] or f["rule_bg"], f["outline"],
-            f["undefined"], f["badarg"], f["tags_show"], f["tags_hide"], f["fault"])
+            f["undefined"], f["badarg"], f["tags_show"], f["tags_hide"], f["fault"], f["cont_fail_not_last"])
 
 
 def thin(jobs, quota, rnd):
@@ -191,6 +196,96 @@ def design_job(n, case):
             "fault": [0, 0], "fault_kind": "exc", "pass": "design", "case": case}
 
 
+def hookskip_job(n, case):
+    """the same abstract run, `unselected` realised by a hook that calls skip() on the element (outermost unselected
+    element only; not for dry runs, where no hook is called)"""
+    run = case["run"]
+    if run["dry"]:
+        return None
+    feats, hooks, el = [], [], 0
+    for f in run["feats"]:
+        el += 1
+        fel = el
+        items = []
+        if not f["sel"]:
+            hooks.append(["before_feature", fel])
+        for sc in f["pre"]:
+            el += 1
+            items.append(G.scenario([KIND2OUTCOME[k] for k in sc["ks"]]))
+            if f["sel"] and not sc["sel"]:
+                hooks.append(["before_scenario", el])
+        r = f["rule"]
+        if r["kind"] == "rule":
+            el += 1
+            rel = el
+            if f["sel"] and not r["sel"]:
+                hooks.append(["before_rule", rel])
+            scs = []
+            for sc in r["scs"]:
+                el += 1
+                scs.append(G.scenario([KIND2OUTCOME[k] for k in sc["ks"]]))
+                if f["sel"] and r["sel"] and not sc["sel"]:
+                    hooks.append(["before_scenario", el])
+            items.append(G.rule(scs, bg=["pass"] * r["rbg"] if r["rbg"] else None))
+        feats.append(G.feature(items, bg=["pass"] * f["fbg"] if f["fbg"] else None))
+    if not hooks:
+        return None
+    prog = {"features": feats, "family": "hookskip"}
+    flat = G.flatten(prog)
+    if [e["kind"] for e in flat["elems"]] != case["kinds"]:
+        raise RuntimeError("element table of the emitted run and of gen.flatten differ")
+    return {"key": ["hookskip", n], "prog": prog, "flat": flat, "cfg": G.cfg(expr="true", dry=False, show_skipped=run["ss"]),
+            "fault": [0, 0], "fault_kind": "exc", "pass": "hookskip", "case": case, "skip_hooks": hooks}
+
+
+def hookskip_case(job):
+    """run_case with user hooks that exclude their element: the driver's recording hook of the listed (hook, element)
+    pairs is followed by element.skip() -- what an environment.py hook may do (behave/model.py: 'Hook may call
+    entity.mark_skipped() to exclude it').  The shared driver has no such hook, so ModelRunner.run_hook is wrapped for
+    the duration of this one run."""
+    import traceback
+    from behave.runner import ModelRunner
+    try:
+        R = stage.drive.Rendered(job["prog"], job["flat"])
+        fidx = {fn: i for i, (fn, _t) in enumerate(R.files)}
+        want = {(h, el) for h, el in job["skip_hooks"]}
+        orig = ModelRunner.run_hook
+
+        def run_hook(self, name, context, *args):
+            x = args[0] if args else None
+            if x is not None and hasattr(x, "filename") and name in self.hooks and \
+                    (name, R.by_loc.get((fidx.get(os.path.basename(x.filename), -1), x.line), 0)) in want:
+                user = self.hooks[name]
+
+                def hook(ctx, *a):
+                    user(ctx, *a)
+                    a[0].skip()
+                self.hooks[name] = hook
+                try:
+                    return orig(self, name, context, *args)
+                finally:
+                    self.hooks[name] = user
+            return orig(self, name, context, *args)
+        ModelRunner.run_hook = run_hook
+        try:
+            case = run_job({k: v for k, v in job.items() if k not in ("case", "skip_hooks")})
+            row = stage.drive.run_case(case, reports=True)
+        finally:
+            ModelRunner.run_hook = orig
+        row["key"] = job["key"]
+        return row
+    except Exception:
+        return {"key": job["key"], "driver_error": traceback.format_exc()}
+
+
+def pmap(fn, jobs):
+    if PROCS <= 1 or len(jobs) < 20:
+        return [fn(j) for j in jobs]
+    from multiprocessing import Pool
+    with Pool(PROCS) as pool:
+        return pool.map(fn, jobs, chunksize=max(1, len(jobs) // (PROCS * 8)))
+
+
 def design_diffs(case, row):
     """prediction of Consumers_MC vs observation of the real run (informational)"""
     d = []
@@ -229,7 +324,7 @@ def signature(v, row):
 
 def describe(job, row):
     d = {"pass": row["pass"], "cfg": job["cfg"], "fault": job["fault"], "formats": row["formats"], "switches": job.get("switches", []),
-         "prog": job["prog"], "ran": row["end"]["ran"], "escaped": row["end"]["escaped"], "status": row["end"]["status"],
+         "skip_hooks": job.get("skip_hooks", []), "prog": job["prog"], "ran": row["end"]["ran"], "escaped": row["end"]["escaped"], "status": row["end"]["status"],
          "step_status": row["end"]["step_status"],
          "events": " ".join("%s%s" % (e["name"], ("(%d,%d%s)" % (e["el"], e["pos"], "," + e["status"] if e["status"] else "")) if e["el"] else "")
                             for e in row["events"])[:1500],
@@ -246,7 +341,8 @@ def judge(chk, rows, jobs):
         job, row = jobs[rid], byid[rid]
         for v in vs:
             payload = {k: job[k] for k in ("key", "prog", "cfg", "fault", "fault_kind")}
-            payload.update({"pass": row["pass"], "formats": row["formats"], "switches": job.get("switches", [])})
+            payload.update({"pass": row["pass"], "formats": row["formats"], "switches": job.get("switches", []),
+                            "skip_hooks": job.get("skip_hooks", [])})
             chk.violation(v[2].split("/")[0], signature(v, row), describe(job, row), payload)
     return verdicts
 
@@ -309,12 +405,14 @@ def run(chk):
         emitted = rnd.sample(emitted, nd)
     djobs = [design_job(n, c) for n, c in enumerate(emitted)]
     design_out = stage.drive_all([run_job({k: v for k, v in j.items() if k != "case"}) for j in djobs], procs=PROCS)
-    verdicts.update(judge(chk, add_rows(djobs, design_out), jobs))
+    hjobs = [j for j in (hookskip_job(n, c) for n, c in enumerate(emitted)) if j is not None]
+    hook_out = pmap(hookskip_case, hjobs)
+    verdicts.update(judge(chk, add_rows(djobs + hjobs, design_out + hook_out), jobs))
     # spec vs implementation (informational): the automata on every recorded stream; the generator on the design rows
     div = tagged(chk, "DIVERGE")
     ddiv = []
     for row in rows:
-        if row["pass"] == "design":
+        if row["pass"] in ("design", "hookskip"):
             d = design_diffs(jobs[row["id"]]["case"], row)
             if d:
                 ddiv.append({"row": row["id"], "run": jobs[row["id"]]["case"]["run"], "diff": d[:2]})
@@ -331,7 +429,7 @@ def run(chk):
     chk.exhaustive = False
     chk.extra["distinct_nontrivial"] = len({json.dumps([x["prog"], x["cfg"], x["formats"], x["events"]], sort_keys=True)
                                             for x in rows if any(e["name"] == "result" for e in x["events"])})
-    chk.extra["rows"] = {"reports": len(base), "formats": len(fjobs), "design": len(djobs)}
+    chk.extra["rows"] = {"reports": len(base), "formats": len(fjobs), "design": len(djobs), "hookskip": len(hjobs)}
     chk.extra["planned_cases_of_shared_plan"] = planned
     chk.extra["rows_run_died_in_formatter"] = sum(1 for x in rows if not x["end"]["ran"] and x["last_k"] == "fmt")
     chk.extra["rows_not_judged_died_elsewhere"] = len(notjudged)
@@ -354,9 +452,10 @@ def run(chk):
                 "x second feature; TLC, exhaustive); rows: design = emitted runs on the real runner; reports = class-balanced part of the "
                 "shared run-cluster plan with json plain progress2 progress3 rerun; formats = the same cases with the formatter set / "
                 "order and display switches varied; distinct = distinct (program, cfg, formatter list, recorded stream) among rows "
-                "with at least one processed step")
-    chk.assumptions = ["which step a match() belongs to is not part of the callback: the j-th match of a scenario is taken to belong to its "
-                       "j-th step (in a dry run: j-th defined step) when a died run is attributed to a formatter (signature only)",
+                "with at least one processed step; hookskip = emitted runs with unselected elements, excluded at run time by a hook "
+                "calling skip() instead of by tags")
+    chk.assumptions = ["a run that died inside a formatter callback is attributed to the first formatter of the run whose automaton crashes "
+                       "on the recorded stream (signature only)",
                        "statuses that formatters read from model objects during a callback are compared with the statuses after the run",
                        "--no-junit --no-summary in all runs, so that a run that dies did so inside a formatter callback",
                        "configurations of the shared plan with scenario_autoretry are run without it: a retried scenario is announced "
@@ -377,7 +476,11 @@ def replay(chk, payload):
     if rp.get("formats") and rp["formats"] != DEFAULT_FORMATS:
         job["formats"] = rp["formats"]
     job["switches"] = rp.get("switches", [])
-    o = stage.drive_all([run_job(job)], procs=1)[0]
+    if rp.get("skip_hooks"):
+        job["skip_hooks"] = rp["skip_hooks"]
+        o = hookskip_case(job)
+    else:
+        o = stage.drive_all([run_job(job)], procs=1)[0]
     if "driver_error" in o:
         raise RuntimeError(o["driver_error"])
     row = make_row(1, job, o)
